@@ -49,6 +49,8 @@ static const char* scripts[][3] = {
     {"Pp", "s", ""},      // 3
     {"PPp", "ss", ""},    // 4
     {"PPPpp", "ss", ""},  // 5
+    {"PPPPPp", "s", ""},  // 6: the 2-slot array grows twice (2 -> 4 -> 8) while a thief may be inside one steal
+    {"PPPPPpp", "ss", ""},// 7
 };
 
 static void do_op(int kind, int val) {
